@@ -98,8 +98,28 @@ pub fn run(fam: &str, t: &mut Toks) -> Option<R<String>> {
             "fromops" => {
                 let ops = t.ops()?;
                 t.done()?;
-                let m: BytecodeMapped = ops.into_iter().collect();
-                Ok(format!("{} {}", hex_of(m.bytecode()), show_nats(m.op_indices())))
+                // the mapping is collected from iterators of several shapes: exact size, unknown size, a loose upper bound
+                let show = |m: &BytecodeMapped| format!("{} {}", hex_of(m.bytecode()), show_nats(m.op_indices()));
+                let m: BytecodeMapped = ops.clone().into_iter().collect();
+                let base = show(&m);
+                let o2 = ops.clone();
+                let variants: Vec<(&str, Box<dyn Fn() -> BytecodeMapped + std::panic::RefUnwindSafe>)> = vec![
+                    ("filter", Box::new({ let o = ops.clone(); move || o.clone().into_iter().filter(|_| true).collect() })),
+                    ("from_fn", Box::new({ let o = ops.clone(); move || { let mut i = 0; std::iter::from_fn(|| { let r = o.get(i).copied(); i += 1; r }).collect() } })),
+                    ("map_while over 0..u64::MAX", Box::new(move || (0..u64::MAX).map_while(|i| o2.get(i as usize).copied()).collect())),
+                    ("chain", Box::new({ let o = ops.clone(); move || o.clone().into_iter().chain(std::iter::empty()).collect() })),
+                ];
+                for (name, f) in variants {
+                    match std::panic::catch_unwind(|| f()) {
+                        Ok(mv) => {
+                            if show(&mv) != base {
+                                return Ok(format!("FAIL collected through `{name}`: {} instead of {}", show(&mv), base));
+                            }
+                        }
+                        Err(_) => return Ok(format!("FAIL collecting through `{name}` panics")),
+                    }
+                }
+                Ok(base)
             }
             "gparse" => {
                 // the group-level parser `<Group>::try_from_bytes`
